@@ -18,6 +18,7 @@ func init() {
 }
 
 func runC09(c *Ctx) {
+	c.rule("reply-capacity", "(shared with C08) every EnableVerification request makes its own reply channel with room for the answer: the verdict a call returns is the verdict on the config installed when the monitor handled that very request", 2)
 	c.rule("atomic-pair", "(shared with C05/C06) the (config, serial) pair EnableVerification returns on its no-monitor paths comes from one atomic load in ViewVersion", 2)
 	c.rule("verify-sites", "Verify is invoked only at the known sites, each under its exact guard: Config (isVerified && !Skip && !Delay), the re-stack (isVerified && !skipVerify), the monitor's enable helper (only when called, which the monitor does only while skipVerify), and the no-monitor fast path of EnableVerification (Delay && no monitor && isVerified)", 4)
 	c.rule("flag-transitions", "skipVerify starts as DelayInitialVerification and is only ever reassigned !helper(...); the helper returns true exactly when the installed config is not a VerifiedConfig or Verify returned nil, and false (delay stays in force) otherwise; the monitor calls the helper only while skipVerify", 4)
@@ -36,6 +37,7 @@ func runC09(c *Ctx) {
 		return
 	}
 	c05Atomic(c, k)
+	c08ReplyChannels(c)
 	c18ParamsOnly(c, "ez-suppression")
 	w := c.W
 	m := k.monitor
